@@ -720,7 +720,10 @@ def execute(case):
 
     def one(call, faults):
         rec = do_call(case, call, faults)
-        faulted = bool(faults)
+        hung = any(x.get("solver_hung_killed") for x in rec["inv_log"])
+        if hung:
+            bump("probe:solver_hung_and_was_killed")
+        faulted = bool(faults) or hung  # a solver the simulator had to kill is a fault, whoever caused it
         vs = judge(case, call, rec, faulted)
         for v in vs:
             explicit = {k: case[k] for k in ("property", "variant", "species", "reac", "prod", "container", "subs", "witness", "cold_decoy") if k in case}
